@@ -193,6 +193,10 @@ func verifyOwners(entries []discovery.Entry, allowedOwners []*regexp.Regexp) (re
 		if entry.PathError != nil {
 			continue
 		}
+		if entry.Rule.Error.Err != nil {
+			// Rules that failed to parse have no keys to point at and are already reported as errors.
+			continue
+		}
 		if entry.Owner == "" {
 			reports = append(reports, reporter.Report{
 				Path:          entry.Path,
